@@ -9,20 +9,52 @@ From SwayV Require Import Base.Util C04.Model.
    11 branch to a missing block / argument count differs from the target's parameter count
    12 entry block has a predecessor
    13 a value id is defined twice
-   14 an operand (in a reachable block) has no definition in the function
+   14 rejected only because operands (in reachable blocks) have no definition in the function
    15 an operand's definition does not dominate the use
    16 fuel exhausted in the reachability / dominator iteration
    17 iteration result not closed / not stable (checker-internal) *)
 Definition exempt (pm : N) (b : nat) (blk : block) : bool :=
   (Nat.leb (length (b_body blk)) 1 && negb (bit pm b) && negb (Nat.eqb b 0))%bool.
 
-Definition ops_known (f : fn) (R : N) (t : PositiveMap.t site) : bool :=
-  forallb (fun pb => (negb (bit R (fst pb)) ||
-     forallb (fun i => forallb (fun v => match PositiveMap.find (key v) t with Some _ => true | None => false end) (i_ops i))
-             (b_body (snd pb)))%bool) (indexed f).
+(* Relaxed variants, used ONLY to name the cause of a disagreement with Context::verify():
+   [ex_entry]    verify_block's "at most one instruction and no predecessor" exemption also covers the
+                 entry block (its terminator and its uses are then not looked at);
+   [ex_dangling] check_def_dominates_use returns true for an operand that is an instruction found in
+                 no block of the function. *)
+Definition block_ok_g (ex_entry : bool) (f : fn) (pm : N) (b : nat) (blk : block) : bool :=
+  if (Nat.leb (length (b_body blk)) 1 && negb (bit pm b) && (ex_entry || negb (Nat.eqb b 0)))%bool then true
+  else (well_terminated (b_body blk) && forallb (succ_ok f) (b_succs blk))%bool.
 
+Definition def_ok_g (ex_dangling : bool) (f : fn) (D : list N) (t : PositiveMap.t site) (b k : nat) (v : N) : bool :=
+  match PositiveMap.find (key v) t with
+  | None => ex_dangling
+  | Some _ => def_ok f D t b k v
+  end.
+
+Definition uses_ok_g (ex_entry ex_dangling : bool) (f : fn) (pm : N) (D : list N) (R : N) (t : PositiveMap.t site) : bool :=
+  forallb (fun pb => (negb (bit R (fst pb)) ||
+     (ex_entry && Nat.eqb (fst pb) 0 && Nat.leb (length (b_body (snd pb))) 1 && negb (bit pm 0)) ||
+     forallb (fun ki => forallb (def_ok_g ex_dangling f D t (fst pb) (fst ki)) (i_ops (snd ki))) (indexed (b_body (snd pb))))%bool)
+    (indexed f).
+
+Definition check_g (ex_entry ex_dangling : bool) (f : fn) : bool :=
+  let pm := pred_mask (edges f) in
+  (match f with [] => false | _ => true end
+   && forallb (fun pb => block_ok_g ex_entry f pm (fst pb) (snd pb)) (indexed f)
+   && negb (bit pm 0)
+   && nodup_aux (PositiveMap.empty unit) (all_defs f)
+   && match compute_reach f, compute_dom f with
+      | Some R, Some D => closed (edges f) R && stable (edges f) D && uses_ok_g ex_entry ex_dangling f pm D R (def_table f)
+      | _, _ => false
+      end)%bool.
+
+(*  further codes: 18 rejected only because of the entry-block exemption, 14 only because of operands
+    without definition, 19 only because of both *)
 Definition judge_fn (f : fn) : N :=
   if check_fn f then 0%N else
+  if check_g true false f then 18%N else
+  if check_g false true f then 14%N else
+  if check_g true true f then 19%N else
   match f with
   | [] => 9%N
   | _ =>
@@ -33,10 +65,113 @@ Definition judge_fn (f : fn) : N :=
     else if negb (nodup_aux (PositiveMap.empty unit) (all_defs f)) then 13%N
     else match compute_reach f, compute_dom f with
          | Some R, Some D =>
-           if negb (closed (edges f) R && stable (edges f) D) then 17%N
-           else if ops_known f R (def_table f) then 15%N else 14%N
+           if negb (closed (edges f) R && stable (edges f) D) then 17%N else 15%N
          | _, _ => 16%N
          end
   end.
 
+(* the relaxed checker with no relaxation is check_fn *)
+Example check_g_strict_example : forall f, In f [[mkB [] [mkI 0 [] (Some [])]]; [mkB [] []]; []] ->
+  check_g false false f = check_fn f.
+Proof. intros f [<-|[<-|[<-|[]]]]; vm_compute; reflexivity. Qed.
+
 Definition judge_all (fs : list fn) : list N := map judge_fn fs.
+
+(* ---- transport: the harness writes every CFG as a stream of decimal numbers
+     nblocks { nargs arg* ninstrs { id nops op* kind } }      kind = 0 plain | 1+n terminator with n successors, then n * (block nargs)
+   several functions separated by ';', the whole shard as ONE string literal (Coq parses a long string
+   in milliseconds; the same data as nested list/record notations takes seconds). Code 99 = undecodable. *)
+From Coq Require Import String Ascii.
+
+Fixpoint lex (s : string) (cur : option N) : list (option N) :=
+  match s with
+  | EmptyString => match cur with Some n => [Some n] | None => [] end
+  | String c r =>
+    let k := N_of_ascii c in
+    if (N.leb 48 k && N.leb k 57)%bool
+    then lex r (Some (10 * (match cur with Some n => n | None => 0 end) + (k - 48))%N)
+    else let rest := if N.eqb k 59 then None :: lex r None else lex r None in
+         match cur with Some n => Some n :: rest | None => rest end
+  end.
+
+Fixpoint split_fns (l : list (option N)) (cur : list N) : list (list N) :=
+  match l with
+  | [] => match cur with [] => [] | _ => [rev cur] end
+  | Some n :: r => split_fns r (n :: cur)
+  | None :: r => rev cur :: split_fns r []
+  end.
+
+Fixpoint dec_nums (k : nat) (l : list N) : option (list N * list N) :=
+  match k with
+  | O => Some ([], l)
+  | S k' => match l with
+            | x :: r => match dec_nums k' r with Some (xs, r') => Some (x :: xs, r') | None => None end
+            | [] => None
+            end
+  end.
+
+Fixpoint dec_succs (k : nat) (l : list N) : option (list (nat * nat) * list N) :=
+  match k with
+  | O => Some ([], l)
+  | S k' => match l with
+            | b :: na :: r => match dec_succs k' r with
+                              | Some (xs, r') => Some ((N.to_nat b, N.to_nat na) :: xs, r')
+                              | None => None end
+            | _ => None
+            end
+  end.
+
+Fixpoint dec_instrs (k : nat) (l : list N) : option (list instr * list N) :=
+  match k with
+  | O => Some ([], l)
+  | S k' =>
+    match l with
+    | id :: nops :: r =>
+      match dec_nums (N.to_nat nops) r with
+      | Some (ops, kind :: r2) =>
+        match (if N.eqb kind 0 then Some (None, r2)
+               else match dec_succs (N.to_nat (kind - 1)) r2 with
+                    | Some (ss, r3) => Some (Some ss, r3) | None => None end) with
+        | Some (succs, r3) =>
+          match dec_instrs k' r3 with
+          | Some (is, r4) => Some (mkI id ops succs :: is, r4)
+          | None => None end
+        | None => None end
+      | _ => None end
+    | _ => None
+    end
+  end.
+
+Fixpoint dec_blocks (k : nat) (l : list N) : option (list block * list N) :=
+  match k with
+  | O => Some ([], l)
+  | S k' =>
+    match l with
+    | nargs :: r =>
+      match dec_nums (N.to_nat nargs) r with
+      | Some (args, ni :: r2) =>
+        match dec_instrs (N.to_nat ni) r2 with
+        | Some (is, r3) =>
+          match dec_blocks k' r3 with
+          | Some (bs, r4) => Some (mkB args is :: bs, r4)
+          | None => None end
+        | None => None end
+      | _ => None end
+    | [] => None
+    end
+  end.
+
+Definition dec_fn (l : list N) : option fn :=
+  match l with
+  | nb :: r => match dec_blocks (N.to_nat nb) r with Some (bs, []) => Some bs | _ => None end
+  | [] => None
+  end.
+
+Definition judge_stream (s : string) : list N :=
+  map (fun l => match dec_fn l with Some f => judge_fn f | None => 99%N end) (split_fns (lex s None) []).
+
+(* the decoder inverts the harness encoding on a small example *)
+Example dec_example :
+  dec_fn [2; 1; 0; 2; 1; 1; 0; 0; 2; 1; 1; 3; 1; 0; 1; 0; 0; 1; 3; 0; 1]%N =
+  Some [mkB [0]%N [mkI 1 [0]%N None; mkI 2 [1]%N (Some [(1, 0); (1, 0)])]; mkB [] [mkI 3 [] (Some [])]].
+Proof. vm_compute. reflexivity. Qed.
